@@ -24,6 +24,7 @@ import MdwModel.Theorems.Plan
 import MdwModel.Model.Decode
 import MdwModel.Theorems.Image
 import MdwModel.Theorems.Refine
+import MdwModel.Theorems.Compose
 namespace Mdw
 
 /-- extents are consecutive from `pos` and end at `fin` -/
@@ -270,5 +271,14 @@ theorem C01_refine_raw (ty : Nat) (b : Buf) (content : Bytes) (hb : b.len + cont
 theorem C01_refine_sysinfo (b : Buf) (sys : DSysInfo) (hb : b.len + 56 + 4 + 2 * sys.os.length < 2 ^ 32) :
     opSysInfo b sys = some (⟨b.inner ++ (serSysInfo sys (b.len + 56) ++ mdStr sys.os)⟩, ⟨ST_SYSTEM_INFO, 56, b.len⟩) :=
   Refine_sysinfo b sys hb
+
+
+/-- **C01 (the operational model produces the image).** `generate_dump` as builder operations — header and directory
+    reserved, header filled, the eighteen writers in the order of the code, each directory entry set into the next
+    slot of the directory array — produces exactly the closed-form image, for every content record (image below
+    4 GiB, at least eighteen directory slots, thread ids in range). Every `C01_image_*` statement is therefore a
+    statement about what those operations leave in the buffer. -/
+theorem C01_compose_dump (d : DumpIn) (hN : 18 ≤ d.numWriters) (hsz : (dumpBytes d).length < 2 ^ 32)
+    (htid : ∀ p ∈ d.names, p.1 < 2 ^ 31) : opDump d = some (dumpBytes d) := Compose_dump d hN hsz htid
 
 end Mdw
